@@ -21,7 +21,7 @@ LAYER = {1: "invariant: PkgOK (manifest file entries = package files, each once;
          7: "rdf-entry: save deleted a manifest.rdf that the manifest lists with an empty media type and kept the entry",
          6: "twin: an operation on one of original / clone broke PkgOK of the other (shared state); saving the other gives a zip its manifest does not describe",
          8: "bookkeeping: the invariant the theorems assume (unique keys, current folder time stamps, cached XML parts only) is lost"}
-WEIGHTS = dict(addfile=6, frame=2, **{"del": 4}, delmandatory=1, **{"import": 2}, set=1, get=1, touch=1, edit=1, save=4, saveself=1, reopen=3, clone=2, clone2=1, swap=2, merge=3, delpic=2)
+WEIGHTS = dict(addfile=6, frame=2, **{"del": 4}, delmandatory=1, **{"import": 2}, set=1, get=1, touch=1, edit=1, save=4, saveself=1, reopen=3, clone=2, clone2=1, swap=2, merge=3, delpic=2, addobject=1, editobj=1)
 
 
 def zip_problems(entries):
